@@ -198,6 +198,9 @@ def c05() -> int:
     from .enum_pooling import run as pooling_plans
 
     pooling_plans(c, "C05")
+    # another operator's station on the base's own cell (id sorting before the serving station's, other tariff)
+    fsx(c, RES + ({"variant": "core", "gas": True, "prices": True, "mechs": ("thirsty", "small", "ice"), "decoy_station": True, "pairs": False, "name": "W-res/money/decoy-station"},),
+        ("hivemc.bundles", "c05", {}), K=2, H=6 if quick else 8, needs=["c05:charge:ChargingBase:LEVEL_2"])
     auto_worlds(c, "c05", quick, extra={"prices": True}, needs=["c05:charge:ChargingBase:LEVEL_2", "c05:charge:ChargingStation:DCFC|c05:charge:ChargingStation:LEVEL_2", "c05:fare"])
     return c.finish()
 
